@@ -322,6 +322,9 @@ def run_property(mod, prop, tier, seed, build, t0, skip_d=False, skip_b=False, o
             machinery.append("vcgen crashed on %s: %s" % (r["module"], r["error"][-400:]))
         for fn, why in r.get("problems", []):
             undecided.append("target=%s (%s)" % (fn, why))
+        for x in r.get("crosscheck", []):
+            if x["mismatches"]:
+                machinery.append("encoder cross-check: vcgen's concrete run of %s disagrees with CPython on the real function: %s" % (x["function"], str(x["mismatches"][0])[:600]))
         for cn in r.get("canaries", []):
             if not cn["ok"]:
                 canary_issues.append("canary verified (encoder or contract file unsound?): %s %s" % (cn["name"], cn.get("why", "")))
@@ -462,6 +465,8 @@ def run_property(mod, prop, tier, seed, build, t0, skip_d=False, skip_b=False, o
             functions_under_contract=[dict((k, f.get(k)) for k in ("function", "status", "obligations", "paths", "source_hash", "reason", "exits_reached") if k in f)
                                       for r in d_results for f in r.get("functions", []) if prop in f.get("props", [prop])],
             canaries=[cn for r in d_results for cn in r.get("canaries", [])],
+            encoder_crosscheck=[dict(function=x["function"], concrete_runs_compared_with_cpython=x["runs"], skipped=x["skipped"], mismatches=len(x["mismatches"]))
+                                for r in d_results for x in r.get("crosscheck", [])],
             undecided=undecided,
             evaluations=evals, distinct_nontrivial=dn,
             rule="; ".join("%s: %s" % (b["name"], b["rule"]) for b in b_results),
